@@ -984,6 +984,9 @@ def emit_call(E, f, env, ins, rty, callee, args, decls, retzero):
         tname = mm.group(1) if mm else 'unknown'
         E.exc_ids.setdefault(tname, EXC_IDS.get(tname, 90 + len(E.exc_ids)))
         return ['__verif_exc = %d; /* throw %s */' % (E.exc_ids[tname], tname)]
+    if re.match(r'^_ZNSt\d+\w*(error|argument|exception|range|failure)[CD][0-2]E', name):
+        E.used_decls.add(('note', '/* libstdc++ exception object constructor/destructor %s: no effect on the modelled state */' % name))
+        return []
     if name in E.opts.get('uffunc', set()):
         ct = E.cty(rty); sig = ','.join(E.cty(t) for t, _ in args)
         E.used_decls.add(('uf', '%s __CPROVER_uninterpreted_%s(%s);' % (ct, cname(callee), sig)))
@@ -1071,6 +1074,7 @@ def translate(text, only=None, opts=None, module=None):
     hdr += sorted(set(E.fwd)) + E.typedefs
     ufs = [d for k, d in sorted(E.used_decls) if k == 'uf']
     stubs = [d for k, d in sorted(E.used_decls) if k == 'stub']
+    hdr += [d for k, d in sorted(E.used_decls) if k == 'note']
     hdr += ['#ifdef __CPROVER__'] + ufs + ['#else'] + sorted(E.native_uf) + ['#endif']
     if E.need_cuf:
         hdr += ['#ifndef VERIF_CUF', '#define VERIF_CUF']
